@@ -248,8 +248,16 @@ def _check_explicit(case):
     return viols, evals, keys
 
 
+def _replace_vs_selector_cases(tier):
+    # a link that rewrites the atom type another link selects by, in both orders of definition
+    for links in (["repl_type", "sel_type"], ["sel_type", "repl_type"], ["repl_type", "sel_type", "bb"]):
+        for n in (2, 3, 4):
+            yield {"variant": {"links": links, "names": ["A", "C"] if n < 4 else ["A"]}, "n": n, "tier": tier}
+
+
 def cases(tier):          # noqa: F811
     yield from _explicit_cases(tier)
+    yield from _replace_vs_selector_cases(tier)
     yield from _core_cases(tier)
     yield from _dangling_cases(tier)
     yield from _composite_cases(tier)
